@@ -264,8 +264,17 @@ def _worker(args):
     mod = importlib.import_module(modname)
     rng = random.Random(f"{mod.PROP}/{seed}/{chunk}")
     out = []
-    gen = mod.generate(rng, tier, count) if count is not None else []
-    for sc in gen:
+    gen = iter(mod.generate(rng, tier, count) if count is not None else [])
+    while True:
+        try:
+            sc = next(gen)
+        except StopIteration:
+            break
+        except Exception:
+            # a generator that drives the implementation while it generates and crashes there (e.g. a changed translated
+            # function): recorded like a crashing scenario, so that the decision procedure runs instead of a traceback
+            out.append((["# scenario generator crashed on the implementation"], {}, None, "crash: " + traceback.format_exc()[-1500:]))
+            break
         try:
             obs = guarded_impl(mod, sc)
         except ScenarioTimeout:
